@@ -661,6 +661,12 @@ class UpdateCollection(Message):
             # MP_REACH_NLRI contains nexthop - use iter_routed() for RoutedNLRI
             announces.extend(reach.iter_routed())
 
+        if Attribute.CODE.INTERNAL_TREAT_AS_WITHDRAW in attributes:
+            # RFC 7606 2: a malformed attribute of the treat-as-withdraw class means every route of the
+            # UPDATE is handled as if it had been listed as withdrawn
+            withdraws.extend(routed.nlri for routed in announces)
+            announces = []
+
         return cls(announces, withdraws, attributes)
 
     # EOR prefix for non-IPv4-unicast families
